@@ -18,13 +18,17 @@
 #define SING	1e-4L		/* pivot ratio below which a case is singular */
 
 static const double complex z0_alpha[] = {
-    50.0, 75.0, 1.0, 50.0 + 20.0 * I, 30.0 - 40.0 * I, 1000.0 + 5.0 * I
+    50.0, 75.0, 1.0, 50.0 + 20.0 * I, 30.0 - 40.0 * I, 1000.0 + 5.0 * I,
+    0.1, 377.0 - 100.0 * I		/* thorough tier only */
 };
-#define NZ0A 6
-#define NZ0P (NZ0A * NZ0A)
+#define NZ0A 6			/* n-port table and quick tier */
+#define NZ0A_T 8
+static int nz0a(int tier) { return tier ? NZ0A_T : NZ0A; }
+#define NZ0P(tier) (nz0a(tier) * nz0a(tier))
 
 static const double complex entry_alpha[] = {
-    0.5, -0.3 + 0.4 * I, 0.1 * I, 1.2 - 0.7 * I, 0.0
+    0.5, -0.3 + 0.4 * I, 0.1 * I, 1.2 - 0.7 * I, 0.0,
+    1e-3, 3.0 + 4.0 * I			/* thorough tier only */
 };
 
 static const double complex structured[8][4] = {
@@ -64,7 +68,7 @@ static const convn_t convn_table[] = {
 #define NZ0N 4
 #define NMATN 6
 
-static int n_entry(int tier) { return tier ? 5 : 3; }
+static int n_entry(int tier) { return tier ? 7 : 3; }
 static int n_mats(int tier)
 {
     int a = n_entry(tier);
@@ -107,8 +111,7 @@ static void get_matrix(int tier, int k, int type, double complex m[2][2])
 
 static long count(int tier)
 {
-    (void)tier;
-    return (long)NCONV2 * NZ0P + (long)NZI2 * NZ0P +
+    return (long)NCONV2 * NZ0P(tier) + (long)NZI2 * NZ0P(tier) +
 	(long)NCONVN * NMAX * NZ0N;
 }
 
@@ -163,7 +166,8 @@ static void run_conv2(int tier, int f, int zi, vf_result *r)
 {
     const conv2_t *c = &conv2_table[f];
     const conv2_t *rev = find2(c->to, c->from);
-    double complex z0[2] = { z0_alpha[zi / NZ0A], z0_alpha[zi % NZ0A] };
+    double complex z0[2] = { z0_alpha[zi / nz0a(tier)],
+	z0_alpha[zi % nz0a(tier)] };
     int nm = n_mats(tier);
     long nonsing = 0, sing = 0;
     long double worst = 0;
@@ -232,20 +236,38 @@ static void run_conv2(int tier, int f, int zi, vf_result *r)
 		double unit[2][2];
 		double complex one[4] = { 1, 1, 1, 1 }, um[2][2];
 		scale_for_type(c->from, one, um);
-		double err = 0;
+		double err = 0, err_ref = 0;
+		double complex bref[2][2];
+		/*
+		 * How well can the original be recovered at all from the
+		 * library's (double precision) forward result?  Convert it
+		 * back with the reference conversion in long double: what
+		 * that loses is the conditioning of the round trip, not an
+		 * error of the backward function.
+		 */
+		int rvr = ports_convert(2, c->to, &out[0][0], c->from,
+			&bref[0][0], z0);
 		for (int i = 0; i < 4; ++i) {
 		    unit[i / 2][i % 2] = cabs((&um[0][0])[i]);
 		    double ref = fmax(cabs((&in[0][0])[i]), unit[i / 2][i % 2]);
 		    double e = cabs((&back[0][0])[i] - (&in[0][0])[i]) / ref;
 		    if (!(e <= err))
 			err = e;
+		    if (rvr == PORTS_OK) {
+			double er = cabs((&bref[0][0])[i] - (&in[0][0])[i]) /
+			    ref;
+			if (!(er <= err_ref))
+			    err_ref = er;
+		    }
 		}
-		if (!(err <= 1e-7)) {
+		if (rvr == PORTS_OK && !(err <= 1e-7 + 1e3 * err_ref)) {
 		    snprintf(sig, sizeof(sig), "roundtrip:%s", c->name);
 		    vf_fail(r, sig, "%s then %s does not return the "
-			    "original (cell-wise rel err %.3e, pivot ratios "
-			    "%.2Le / %.2Le) matrix #%d", c->name, rev->name,
-			    err, pr, pr2, k);
+			    "original (cell-wise rel err %.3e; an exact "
+			    "back-conversion of the same forward result "
+			    "loses %.3e; pivot ratios %.2Le / %.2Le) "
+			    "matrix #%d", c->name, rev->name, err, err_ref,
+			    pr, pr2, k);
 		}
 	    }
 	}
@@ -259,7 +281,8 @@ static void run_conv2(int tier, int f, int zi, vf_result *r)
 static void run_zi2(int tier, int f, int zi, vf_result *r)
 {
     const zi2_t *c = &zi2_table[f];
-    double complex z0[2] = { z0_alpha[zi / NZ0A], z0_alpha[zi % NZ0A] };
+    double complex z0[2] = { z0_alpha[zi / nz0a(tier)],
+	z0_alpha[zi % nz0a(tier)] };
     int nm = n_mats(tier);
     long nonsing = 0, sing = 0;
     double worst = 0;
@@ -440,12 +463,12 @@ static void run_convn(int f, int n, int zk, vf_result *r)
 
 static void run(int tier, long idx, vf_result *r)
 {
-    long a = (long)NCONV2 * NZ0P, b = (long)NZI2 * NZ0P;
+    long a = (long)NCONV2 * NZ0P(tier), b = (long)NZI2 * NZ0P(tier);
     if (idx < a) {
-	run_conv2(tier, (int)(idx / NZ0P), (int)(idx % NZ0P), r);
+	run_conv2(tier, (int)(idx / NZ0P(tier)), (int)(idx % NZ0P(tier)), r);
     } else if (idx < a + b) {
 	idx -= a;
-	run_zi2(tier, (int)(idx / NZ0P), (int)(idx % NZ0P), r);
+	run_zi2(tier, (int)(idx / NZ0P(tier)), (int)(idx % NZ0P(tier)), r);
     } else {
 	idx -= a + b;
 	int zk = (int)(idx % NZ0N); idx /= NZ0N;
